@@ -25,6 +25,7 @@ CONSTANTS
   HOps = @HOPS@
   ReadLens = @READLENS@
   WriteLens = @WRITELENS@
+  WRN = 4090
   N400C = 51
   N400T = 53
   MaxSteps = @STEPS@
